@@ -51,7 +51,12 @@ def mk_cycle(rng, cause, sm, base):
             pool['start_method'] = 'fork'
     elif cause == 'sigint':
         call['n'] = 30
-        if rng.random() < 0.5:
+        r = rng.random()
+        if r < 0.25:
+            # very early, to the whole group, while the helper processes of the pool (insights manager) are being started
+            pool['enable_insights'] = True
+            call['sigint'] = {'mode': 'time', 'delay': rng.choice([0.002, 0.004, 0.006, 0.01]), 'group': True}
+        elif r < 0.5:
             call['sigint'] = {'mode': 'time', 'delay': round(rng.uniform(0.0, 0.25), 3), 'group': rng.random() < 0.5}
         else:
             # exactly at a point inside / around the library's own signal masking (deterministic: setprofile injection)
